@@ -7,6 +7,7 @@ WORK = os.path.join(ROOT, 'work')
 COQ = os.path.join(ROOT, 'coq')
 HARNESS = os.path.join(ROOT, 'harness')
 VH = os.path.join(WORK, 'target', 'debug', 'vh')
+VH_RELEASE = os.path.join(WORK, 'target', 'release', 'vh')   # no debug assertions, no overflow checks
 GUARD = 'unhindered_ec_verif'
 NCPU = 16
 
@@ -302,11 +303,11 @@ def run_coq_batch(pid, corr, fn, cases, tag):
 
 # --------------------------------------------------------------------------
 # Rust side
-def build_harness():
+def build_harness(release=False):
     with Lock('cargo.lock'):
         env = {'CARGO_NET_OFFLINE': 'true', 'RUSTFLAGS': '--cfg ' + GUARD, 'CARGO_TARGET_DIR': os.path.join(WORK, 'target')}
         # the lock file is /repo's: the harness resolves to exactly the repository's dependency versions
-        rc, out = sh(['cargo', 'build', '--offline', '--quiet'], cwd=HARNESS, env=env, timeout=3000)
+        rc, out = sh(['cargo', 'build', '--offline', '--quiet'] + (['--release'] if release else []), cwd=HARNESS, env=env, timeout=3000)
     if rc != 0:
         # keep the error blocks, not the warnings, in what a replay file shows
         blocks = re.split(r'\n(?=warning|error)', out)
@@ -356,9 +357,10 @@ PANIC = [-1]
 ABORT = [-2]
 HANG = [-3]
 RUN_TIER = 'quick'
+ACTIVE_VH = None   # set to VH_RELEASE while the release pass (and its re-samples / shrinks) runs
 
 
-def run_inputs(pid, inputs, tag='run', per_chunk_timeout=None, nchunks=NCPU):
+def run_inputs(pid, inputs, tag='run', per_chunk_timeout=None, nchunks=NCPU, vh=None):
     """run the real code on inputs (parallel worker processes); returns list of observation trees
     (None = input not understood by the harness).  A worker that dies or hangs yields ABORT / HANG
     for the case it was in and is restarted after it."""
@@ -371,6 +373,7 @@ def run_inputs(pid, inputs, tag='run', per_chunk_timeout=None, nchunks=NCPU):
         per_chunk_timeout = 900 if RUN_TIER == 'thorough' else 240
     nchunks = max(1, min(nchunks, (n + 7) // 8))
     chunks = [list(range(k, n, nchunks)) for k in range(nchunks)]
+    hangs = {}
 
     def work(k):
         todo = chunks[k]
@@ -383,7 +386,7 @@ def run_inputs(pid, inputs, tag='run', per_chunk_timeout=None, nchunks=NCPU):
             with open(inp, 'w') as f:
                 for i in todo:
                     f.write(json.dumps(inputs[i], separators=(',', ':')) + '\n')
-            rc, out = sh([VH, pid, 'run', inp, outp], timeout=budget)
+            rc, out = sh([vh or ACTIVE_VH or VH, pid, 'run', inp, outp], timeout=budget)
             done = 0
             if os.path.exists(outp):
                 for line in open(outp):
@@ -414,7 +417,10 @@ def run_inputs(pid, inputs, tag='run', per_chunk_timeout=None, nchunks=NCPU):
             if done < len(todo):
                 obs[todo[done]] = HANG if rc == 124 else ABORT
                 if rc == 124:
-                    budget = min(budget, 20)   # a hang is established: do not wait that long again in this chunk
+                    # a hang is established: do not wait that long again in this chunk (and after three of them
+                    # only as long as the slowest legitimate case of any quick tier needs)
+                    hangs[k] = hangs.get(k, 0) + 1
+                    budget = min(budget, 20 if hangs[k] < 3 else 6)
                 todo = todo[done + 1:]
             else:
                 return
@@ -563,15 +569,43 @@ def base_trusted(prop):
     ] + prop.get('trusted', [])
 
 
-def judge_inputs(prop, inputs, tag):
-    """run impl + model on inputs; returns (obs list, verdict list) - verdict None for invalid input"""
+def judge_inputs(prop, inputs, tag, release=False, reuse=None):
+    """run impl + model on inputs; returns (obs list, verdict list) - verdict None for invalid input.
+    release: run the release build of the harness; reuse = (obs, verdicts) of the debug build on the same
+    inputs - where the release build answers the same, the verdict carries over and only the rest is judged."""
     pid = prop['id']
     dbg('judge_inputs', tag, len(inputs))
+    global ACTIVE_VH
+    saved = ACTIVE_VH
+    if release:
+        ACTIVE_VH = VH_RELEASE
+    try:
+        return _judge_inputs(prop, inputs, tag, reuse)
+    finally:
+        ACTIVE_VH = saved
+
+
+def _judge_inputs(prop, inputs, tag, reuse):
+    pid = prop['id']
     if prop.get('run_override'):
         obs, valid = prop['run_override'](pid, inputs, tag)
     else:
         obs, valid = run_inputs(pid, inputs, tag=tag)
     dbg('  impl done')
+    if reuse is not None:
+        obs0, ver0 = reuse
+        differ = [i for i in range(len(inputs)) if valid[i] and not (ver0[i] is not None and canon(obs[i]) == canon(obs0[i]))]
+        verdicts = list(ver0)
+        if differ:
+            ob2, v2 = judge_obs(prop, [inputs[i] for i in differ], [obs[i] for i in differ], [True] * len(differ), tag)
+            for i, v in zip(differ, v2):
+                verdicts[i] = v
+        return obs, verdicts, differ
+    return judge_obs(prop, inputs, obs, valid, tag)
+
+
+def judge_obs(prop, inputs, obs, valid, tag):
+    pid = prop['id']
     # a hang or a process abort of the real code on a valid input has no counterpart in any model: the input fails
     stuck = {i: ('the implementation did not return (killed by the watchdog)' if obs[i] == HANG else 'the implementation aborted the process')
              for i in range(len(inputs)) if valid[i] and obs[i] in (HANG, ABORT)}
@@ -631,6 +665,7 @@ def decide(prop, tier, seed, t0):
     # 2. harness against the current tree
     hok, hout = build_harness()
     inputs, meta, obs, verdicts = [], {}, [], []
+    release_idx = set()   # indices of cases that were answered by the release build
     n_corpus = 0
     if not hok:
         broken.append(dict(what='correspondence', name='harness does not build against the current tree', detail=hout[-3000:]))
@@ -654,6 +689,20 @@ def decide(prop, tier, seed, t0):
                         pass
             inputs = corpus + inputs
             obs, verdicts = judge_inputs(prop, inputs, 'main')
+            # the same inputs through a RELEASE build of the harness and the libraries (debug assertions compiled
+            # out, no overflow checks): an answer that differs from the debug build's is judged like any other
+            # (skipped when the debug build already produced failing inputs: the violation is established)
+            if not prop.get('run_override') and not any(v is not None and v[0] == 2 for v in verdicts):
+                rok, rout = build_harness(release=True)
+                if not rok:
+                    broken.append(dict(what='correspondence', name='harness does not build in the release profile', detail=rout[-3000:]))
+                else:
+                    n0 = len(inputs)
+                    obs_r, ver_r, differ = judge_inputs(prop, inputs, 'release', release=True, reuse=(obs, verdicts))
+                    meta['release_profile_cases'] = n0
+                    meta['release_profile_answers_differing_from_debug'] = len(differ)
+                    for i in differ:
+                        inputs.append(inputs[i]); obs.append(obs_r[i]); verdicts.append(ver_r[i]); release_idx.add(len(inputs) - 1)
         except RuntimeError as e:
             broken.append(dict(what='correspondence', name='case evaluation', detail=str(e)[-3000:]))
 
@@ -687,10 +736,11 @@ def decide(prop, tier, seed, t0):
         if len(ordered) > MAXREP:
             log('note: %d distinct failure classes; reporting the %d with the smallest inputs' % (len(ordered), MAXREP))
         for key, idxs in ordered[:MAXREP]:
-            i = min(idxs, key=lambda i: tree_size(inputs[i]))
+            i = min(idxs, key=lambda i: (i in release_idx, tree_size(inputs[i])))
             inp, ob = inputs[i], obs[i]
+            rel = i in release_idx
             if not prop.get('no_shrink'):
-                inp, ob = shrink(prop, judge_fn, inp, ob, 2)
+                inp, ob = shrink(prop, (lambda c: judge_inputs(prop, c, 'shrink', release=True)) if rel else judge_fn, inp, ob, 2)
             key2 = prop['classify'](inp, ob) if prop.get('classify') else key
             kf = [k for k in known if k['key'] == key2]
             if kf:
@@ -700,6 +750,9 @@ def decide(prop, tier, seed, t0):
                            model=model_show(prop, inp, ob), count=len(idxs),
                            description=safe_describe(prop, inp, ob),
                            how='the real code was run on `input` and answered `observed`; the property predicate of Corr/%s.v evaluated on that answer is false' % prop['corr'])
+            if rel:
+                payload['profile'] = 'release'
+                payload['how'] += ' (RELEASE build: debug assertions compiled out, no overflow checks; the debug build answers differently)'
             path = write_replay(pid, payload)
             log('VIOLATION property=%s replay=%s' % (pid, path))
             reported += 1
@@ -807,7 +860,13 @@ def replay(prop, path):
         log((out if not ok else hout)[-2000:])
         return 1
     inp = payload['input']
-    obs, verdicts = judge_inputs(prop, [inp], 'replay')
+    rel = payload.get('profile') == 'release'
+    if rel:
+        rok, rout = build_harness(release=True)
+        if not rok:
+            log(rout[-2000:])
+            return 1
+    obs, verdicts = judge_inputs(prop, [inp], 'replay', release=rel)
     log('input:    ', canon(inp))
     if prop.get('describe'):
         log('meaning:  ', safe_describe(prop, inp, obs[0]))
